@@ -457,6 +457,35 @@ def stepC14 (op obs : String) : String :=
          let dv := if t != mTo || f != mFrom then some s!"{mTo} {mFrom}" else none
          mkVerdict pf dv
        | _ => "BADOP obs")
+  | ["csvopt", "rt", opt, input] =>
+    -- `rows | to_csv({comma: opt}) | from_csv({comma: opt})`, modelled with the option's delimiter
+    (match bytesOfHex opt, (FqModel.Json.unwireAll input).bind rowsOfJV with
+     | some ob, some rows =>
+       match FqModel.Csv.toCsvDelim ob, FqModel.Csv.fromCsvDelim ob with
+       | some c, fd =>
+         let mText := bytesOfChars (FqModel.Csv.toCsvWith c rows)
+         let mDec := match fd with
+           | some c' => showRows (FqModel.Csv.fromCsvWith c' (FqModel.Csv.toCsvWith c rows))
+           | none => "err"
+         (match words obs with
+          | [t, dd] =>
+            let rect := match rows with
+              | [] => true
+              | r :: rs => !r.isEmpty && rs.all (fun x => x.length == r.length)
+            let known : Option String :=
+              if rows.any (fun r => r.any (fun f => ((String.ofList f).splitOn "\r\n").length > 1)) then some "csv-crlf-in-field"
+              else if rows.any (fun r => match r with | f :: _ => f.head? == some '#' | [] => false) then some "csv-comment-row"
+              else if rows.any (fun r => r == [[]]) then some "csv-single-empty-field"
+              else none
+            let ok := dd == showRows (some rows) || dd == "err" || !rect
+            let dv := if t != hx mText || dd != mDec then s!" ;DIVERGE model={hx mText} {mDec}" else ""
+            if ok then (if dv.isEmpty then "OK" else s!"DIVERGE model={hx mText} {mDec}")
+            else match known with
+              | some key => s!"KNOWN {key} from_csv(to_csv(x))={dd}{dv}"
+              | none => s!"PROPFAIL roundtrip-with-options from_csv(to_csv(x))={dd}{dv}"
+          | _ => "BADOP obs")
+       | none, _ => if obs == "err" then "OK" else "DIVERGE model=err"
+     | _, _ => "BADOP csvopt")
   | ["csv", dir, input] => stepCsv dir input obs
   | ["xmlarr", "rt", input] => stepXmlArr input obs
   | ["xmlseq", "rt", input] => stepXmlSeq input obs
